@@ -488,7 +488,7 @@ def run(ck: Check):
     ck.level = "proof"
     obligations, discharged, axioms = standard_proof_step(ck, extra_targets=["Model/ConvCorr.vo"])
     r = ck.rng
-    N = ck.n(1, 20)
+    N = ck.n(1, 8)
     ops, meta = [], []
 
     def add(op, **m):
@@ -520,7 +520,8 @@ def run(ck: Check):
         if r.random() < 0.3:
             s = r.choice(PYWS + WS) + s + r.choice(PYWS + WS)
         add({"op": "deser", "types": ["int"], "s": s}, kind="int_deser", sp=None)
-    for z in [g_int_value(r) for _ in range(120 * N)] + near_limit_ints(r):
+    boundary = [s_ * (2 ** b_) + d_ for b_ in (7, 8, 15, 16, 31, 32, 63, 64) for s_ in (1, -1) for d_ in (-1, 0, 1)] + [0, 1, -1, 10, -10]
+    for z in boundary + [g_int_value(r) for _ in range(100 * N)] + near_limit_ints(r):
         add({"op": "roundtrip", "type": "int", "v": {"t": "int", "v": hex(z)}}, kind="int_ser", z=z)
         add({"op": "from_value", "v": {"t": "int", "v": hex(z)}}, kind="int_datatype", z=z)
 
@@ -606,8 +607,9 @@ def run(ck: Check):
         add({"op": "ser", "v": {"t": "QName", "v": qtext(uri, local)}, "ns_map": m}, kind="qname_ser2", uri=uri, local=local, m=m)
 
     # ---------------- float
-    for _ in range(200 * N):
-        x = g_float(r)
+    fixed_f = [float("inf"), float("-inf"), float("nan"), 0.0, -0.0, 5e-324, 2.2250738585072014e-308, 1.7976931348623157e308, 1e22, 1e16, 1e-5,
+               0.1, 1e21, 123456789.123, 1.0, -1.5]
+    for x in fixed_f + [g_float(r) for _ in range(190 * N)]:
         add({"op": "float_facts", "x": fenc(x)["v"]}, kind="float_facts", x=x)
         add({"op": "roundtrip", "type": "float", "v": fenc(x)}, kind="float_ser", x=x)
         add({"op": "from_value", "v": fenc(x)}, kind="float_datatype", x=x)
